@@ -443,7 +443,7 @@ func init() {
 	extras := map[string]func(rng *kernel.RNG, steps []kernel.Step) []kernel.Step{
 		"C20": addReplays,
 		"C13": badSteps([]int{0, 1, 2, 3, 4, 5, 6, 7, 8, 9, 10, 22}),
-		"C14": badSteps([]int{20, 21, 22, 23, 24, 25, 26, 27, 28, 29, 30, 5, 7, 9}),
+		"C14": badSteps([]int{20, 21, 22, 23, 24, 25, 26, 27, 28, 29, 30, 31, 32, 31, 32, 5, 7, 9}),
 	}
 	defs = append(defs,
 		def{"C13", base + "plus Byzantine submissions before block cuts: the next block damaged in one rule (height, parent, timestamp, block root, stale re-submission, sibling of the tip, wrong state root) or valid, re-sealed by an honest quorum, through AddBlock / ExecuteBlock+SubmitBlock / AddHeaders on any node. oracle: a committed block satisfies every acceptance rule evaluated by a reference (naive RFC 6962 block root); an uncommitted submission leaves every observable unchanged; lookups by height/hash return the committed block and its transactions on every replica; the honest block is accepted afterwards", map[string]int{"chain": 2, "cand": 3, "node": 3, "priv": 2, "import": 2, "relayer": 1}, []string{"bad:wrong-parent", "bad:block-root-flipped", "bad:fork-sibling-of-tip", "bad:resubmit-tip", "valid_submission_accepted:valid-control"}},
@@ -467,6 +467,11 @@ func init() {
 		if d.id == "C18" {
 			// registered by lc.Finalize together with the trust-root witness runs over the drivers
 			C18Rule, C18Probes, C18Generate = d.rule, d.probes, gen
+			continue
+		}
+		if d.id == "C20" {
+			// registered by lc.Finalize together with the per-router replay runs of the depositors
+			C20Rule, C20Probes, C20Generate = d.rule, d.probes, gen
 			continue
 		}
 		if d.id == "C16" {
@@ -529,6 +534,9 @@ var (
 	C18Rule     string
 	C18Probes   []string
 	C18Generate func(rng *kernel.RNG, idx int, tier string) *kernel.Plan
+	C20Rule     string
+	C20Probes   []string
+	C20Generate func(rng *kernel.RNG, idx int, tier string) *kernel.Plan
 	E1Real      = e1Real
 	E1Stub      = e1Stub
 )
